@@ -23,9 +23,12 @@ TECHNIQUE = ("property-based stress testing (Hypothesis-generated workloads, rea
 RULE = ("a workload = 1-6 pushers (start barrier or not), each pushing 1-20 messages on one connection; a pusher is a real "
         "thread calling push(), or (about a third) the reactor's own thread calling push() from a scheduled callback as a "
         "response callback does (asyncio call_soon_threadsafe / twisted callFromThread), optionally paced 1-5 ms between "
-        "pushes; 60% of the workloads run against a throttled peer (reads 512-8192 bytes every 0.5-2 ms for the first "
+        "pushes; 40% of the ordinary workloads run against a throttled peer (reads 512-8192 bytes every 0.5-2 ms for the first "
         "32 KiB / 128 KiB / all bytes, SO_RCVBUF and SO_SNDBUF 2-16 KiB) so that the reactor's send is suspended inside "
-        "messages while further pushes arrive; message sizes "
+        "messages while further pushes arrive; 40% of all workloads are 'trickles' (the reactor thread pushes 8 or 20 "
+        "messages of 1-3 chunks paced 1-5 ms against a fully throttled peer with 2-8 KiB buffers, plus 0-2 other pushers), 20% are 'hammers' (4-6 unpaced threads x 20 messages, fast peer); the worker runs with a "
+        "0.1 ms thread switch interval; "
+        "message sizes "
         "are drawn from {1,2,3,7,100, 4094..4098, 8191..8193, 12287..12289, 16384, 65535..65537} and random sizes up to 20000 "
         "(out_buffer_size = 4096); transport AF_UNIX or loopback TCP for asyncio, loopback TCP for twisted.  Every message "
         "carries its (thread, sequence, offset) in its bytes, so the received stream is parsed exactly: whole messages, the "
@@ -119,8 +122,37 @@ def s_workload(reactor):
         small = st.one_of(st.sampled_from(_SIZES), st.integers(1, 5000))
 
         @st.composite
+        def trickle(draw):
+            """the reactor thread itself pushes a paced series of 1-3 chunk messages against a throttled peer with
+            small socket buffers: most pushes arrive while the previous message is half written and nothing else is
+            queued (the situation of a response callback issuing the next request on a busy connection)"""
+            sz = st.sampled_from([1500, 3000, 4096, 4097, 9000, 12289])
+            threads = [[draw(sz) for _ in range(draw(st.sampled_from([8, 20])))]]
+            loop, pace = [True], [draw(st.sampled_from([1, 2, 5]))]
+            for _ in range(draw(st.sampled_from([0, 0, 1, 2]))):
+                threads.append([draw(small) for _ in range(draw(st.sampled_from([1, 3, 8])))])
+                loop.append(draw(st.booleans()))
+                pace.append(draw(st.sampled_from([0, 1, 5])))
+            buf = draw(st.sampled_from([2048, 8192]))
+            return {"reactor": reactor, "threads": threads, "barrier": True,
+                    "transport": draw(st.sampled_from(["unix", "tcp"])) if reactor == "asyncio" else "tcp",
+                    "loop": loop, "pace_ms": pace,
+                    "reader": {"burst": draw(st.sampled_from([512, 2048, 4096])), "pause_ms": draw(st.sampled_from([0.5, 2])),
+                               "slow_bytes": 10 ** 9, "rcvbuf": buf, "sndbuf": buf}}
+
+        @st.composite
+        def hammer(draw):
+            """4-6 ordinary threads, 20 unpaced messages each, tiny and multi-chunk sizes mixed, fast peer: the
+            most concurrent push() calls per second (thread-safety of the hand-over to the reactor thread)"""
+            sz = st.sampled_from([1, 7, 100, 100, 4096, 4097, 8193, 12289, 20000])
+            n = draw(st.sampled_from([4, 6]))
+            return {"reactor": reactor, "threads": [[draw(sz) for _ in range(20)] for _ in range(n)], "barrier": True,
+                    "transport": draw(st.sampled_from(["unix", "tcp"])) if reactor == "asyncio" else "tcp",
+                    "loop": [False] * n, "pace_ms": [0] * n, "reader": None}
+
+        @st.composite
         def workload(draw):
-            slow = draw(st.sampled_from([False, False, True, True, True]))
+            slow = draw(st.sampled_from([False, False, False, True, True]))
             n = draw(st.sampled_from([1, 2, 2, 3, 4, 6] if not slow else [1, 2, 2, 3, 3, 4]))
             threads = []
             # bytes per workload: keeps the real-thread runs modest (a throttled peer takes ~1 ms per burst)
@@ -151,7 +183,7 @@ def s_workload(reactor):
                 if not any(case["loop"]) and draw(st.booleans()):
                     case["loop"][draw(st.integers(0, n - 1))] = True
             return case
-        return workload()
+        return st.one_of(workload(), workload(), trickle(), trickle(), hammer())
     return build
 
 
@@ -214,8 +246,8 @@ def _interp(reactor):
 def parts(tier):
     from vlib.harness import hyp_part
     return [
-        hyp_part("twisted", s_workload("twisted"), _interp("twisted"), tier, quick=45, thorough=1000,
+        hyp_part("twisted", s_workload("twisted"), _interp("twisted"), tier, quick=70, thorough=1000,
                  quick_shards=3, thorough_shards=8),
-        hyp_part("asyncio", s_workload("asyncio"), _interp("asyncio"), tier, quick=45, thorough=1000,
-                 quick_shards=2, thorough_shards=8),
+        hyp_part("asyncio", s_workload("asyncio"), _interp("asyncio"), tier, quick=70, thorough=1000,
+                 quick_shards=3, thorough_shards=8),
     ]
